@@ -46,6 +46,11 @@ pub struct Plan {
     /// In-process tier only: run the stages this many extra times on the same thread first and
     /// observe the last run ("repeated calls" in one process: later RandomStates, warm state).
     pub repeat: u32,
+    /// Exec tier only: stall the k-th thread the launched process creates by this many
+    /// microseconds before its start routine runs (a slow thread). gram creates exactly one
+    /// thread and joins it, so nothing can change on the current tree; a change that introduces
+    /// racing threads is made to show its race.
+    pub stall: Vec<u32>,
 }
 
 pub const REF_CLOCK_BASE: u64 = 1_700_000_000;
@@ -67,6 +72,7 @@ impl Plan {
             clock_step_ns: REF_CLOCK_STEP_NS,
             pid: REF_PID,
             repeat: 0,
+            stall: vec![],
         }
     }
 
@@ -100,6 +106,7 @@ impl Plan {
             "clock_step_ns": self.clock_step_ns,
             "pid": self.pid,
             "repeat": self.repeat,
+            "stall": self.stall,
         })
     }
 
@@ -125,6 +132,11 @@ impl Plan {
             clock_step_ns: v.get("clock_step_ns").and_then(Value::as_u64).unwrap_or(REF_CLOCK_STEP_NS),
             pid: v.get("pid").and_then(Value::as_u64).unwrap_or(u64::from(REF_PID)) as u32,
             repeat: v.get("repeat").and_then(Value::as_u64).unwrap_or(0) as u32,
+            stall: v
+                .get("stall")
+                .and_then(Value::as_array)
+                .map(|a| a.iter().filter_map(|x| x.as_u64().map(|n| n as u32)).collect())
+                .unwrap_or_default(),
         })
     }
 }
@@ -139,6 +151,8 @@ pub struct CallLog {
     /// Reads of the simulated clock / of the simulated pid by the launched code.
     pub clock_reads: u64,
     pub pid_reads: u64,
+    /// Thread starts the shim actually stalled.
+    pub stalls: u64,
 }
 
 impl CallLog {
@@ -156,6 +170,7 @@ impl CallLog {
         let mut skewed = false;
         let mut clock_reads = 0;
         let mut pid_reads = 0;
+        let mut stalls = 0;
         for line in text.lines() {
             if line.starts_with("S ") {
                 skewed = true;
@@ -169,6 +184,10 @@ impl CallLog {
                 pid_reads += 1;
                 continue;
             }
+            if line.starts_with("Z ") {
+                stalls += 1;
+                continue;
+            }
             let mut it = line.split_whitespace();
             if let (Some(a), Some(b), Some(c)) = (it.next(), it.next(), it.next()) {
                 if let (Ok(a), Ok(b), Ok(c)) = (a.parse(), b.parse(), c.parse()) {
@@ -176,7 +195,7 @@ impl CallLog {
                 }
             }
         }
-        CallLog { calls, skewed, clock_reads, pid_reads }
+        CallLog { calls, skewed, clock_reads, pid_reads, stalls }
     }
 }
 
@@ -264,6 +283,7 @@ pub fn take_log() -> CallLog {
             skewed: false,
             clock_reads: s.clock_reads,
             pid_reads: s.pid_reads,
+            stalls: 0,
         }
     })
 }
